@@ -22,7 +22,7 @@ def config(tier):
     return {
         "hashseeds": [0, 1] if q else [0, 1, 2, 3, 4, 5, 6, 7],
         "families": ["G2"],
-        "mc": [],
+        "mc": [{"module": "MCTxApi", "cfg": "MCUnroll", "workers": 6, "timeout": 1500, "env": {} if q else {"MC_FULL": "1"}}],
         "shards": 8 if q else 16,
         "negctl": 12,
     }
